@@ -53,6 +53,10 @@ type Job struct {
 	Replay    string  `json:"replay"`
 	Known     []Known `json:"known"`
 	RecheckN  int     `json:"recheck_every"`
+	Race      bool    `json:"race"`     // race-detector lane: RaceMode on, no determinism rechecks
+	CurFile   string  `json:"cur_file"` // race lane: always holds the run index being executed
+	OnlyIndex int64   `json:"only_index"` // race replay: repeat this run index (>= 0)
+	Repeat    int     `json:"repeat"`
 }
 
 // ReplayFile is the on-disk form of a minimised failing run.
@@ -418,6 +422,19 @@ func WorkerMain(t *testing.T, engines ...*Engine) {
 	if job.RecheckN <= 0 {
 		job.RecheckN = 20
 	}
+	if job.Race {
+		RaceMode = true
+		job.RecheckN = 1 << 40
+		if job.OnlyIndex >= 0 && job.Repeat > 0 {
+			defer w.finish()
+			for i := 0; i < job.Repeat; i++ {
+				r := w.Exec(NewTape(Mix(job.Seed, job.Prop, uint64(job.OnlyIndex))), false)
+				w.Res.Runs++
+				w.absorb(r)
+			}
+			return
+		}
+	}
 	if job.Mode == "replay" {
 		w.replay()
 		return
@@ -439,7 +456,10 @@ func WorkerMain(t *testing.T, engines ...*Engine) {
 			break
 		}
 		seed := Mix(job.Seed, job.Prop, k)
-		keep := w.Res.Runs < 2 && job.Worker == 0
+		if job.CurFile != "" {
+			os.WriteFile(job.CurFile, []byte(fmt.Sprintf(`{"index": %d, "seed": %d}`, k, job.Seed)), 0o644)
+		}
+		keep := w.Res.Runs < 2 && job.Worker == 0 && !job.Race
 		t0 := time.Now()
 		r := w.Exec(NewTape(seed), keep)
 		w.Res.Runs++
@@ -457,11 +477,15 @@ func WorkerMain(t *testing.T, engines ...*Engine) {
 				break
 			}
 		}
+		if job.Race {
+			w.absorb(r) // oracle verdicts of unscheduled runs are not replayable; this lane only listens to the race detector
+			continue
+		}
 		if !w.Handle(r, k, seed) {
 			break
 		}
 	}
-	if e.Extra != nil && len(w.Res.Nondet) == 0 {
+	if e.Extra != nil && len(w.Res.Nondet) == 0 && !job.Race {
 		e.Extra(t, w)
 	}
 }
